@@ -227,6 +227,7 @@ def homogeneity(ctx, d2, prog, f, cname, mname, rel):
         # the quantity handed to the inner composition solve whose result is stored into the composition buffer
         if e.kind == 'store' and e.target.endswith('[::]') and isinstance(e.stmt.value, ast.Call) and e.stmt.value.args:
             yv = _summand_arg(gp, e)
+            ctx.extra.setdefault('_C08_inner_calls', {})['%s.%s' % (cname, resid_name)] = (e.stmt.value.func, [gp.lin.form(a) for a in e.stmt.value.args])
     if yv is None:
         raise AnalysisError('%s: residual quantity not found' % resid_name)
     total = None
@@ -276,6 +277,122 @@ def _subst(form, mapping):
     return out
 
 
+def _coefficient_signatures(prog):
+    """attribute of a bubble/dew-point object (gamma, pcf, phi) -> positions of the temperature and pressure parameters in the __call__ of
+    the classes that can be bound to it.  Resolved from the source: `self.<attr> = thermo.<Slot>(chemicals)` in the constructors,
+    `issubtype(<Slot>, eq.<Root>)` in Thermo.__init__, then every class deriving from <Root> that defines __call__ (siblings must agree)."""
+    slots = {}
+    for cname, rel in (('BubblePoint', BP), ('DewPoint', DP)):
+        for meth in prog.cls(cname, rel).methods.values():
+            for n in walk_no_nested(meth.node):
+                if isinstance(n, ast.Assign) and len(n.targets) == 1 and isinstance(n.targets[0], ast.Attribute) and isinstance(n.value, ast.Call) \
+                        and n.targets[0].attr in ('gamma', 'pcf', 'phi') \
+                        and isinstance(n.value.func, ast.Attribute) and isinstance(n.value.func.value, ast.Name):
+                    slots.setdefault(n.targets[0].attr, set()).add(n.value.func.attr)
+    roots = {}
+    for lst in prog.classes.values():
+        for k in lst:
+            if k.name != 'Thermo' or '__init__' not in k.methods:
+                continue
+            for n in ast.walk(k.methods['__init__'].node):
+                if isinstance(n, ast.Call) and isinstance(n.func, ast.Name) and n.func.id in ('issubtype', 'issubclass') and len(n.args) == 2 \
+                        and isinstance(n.args[0], ast.Name) and isinstance(n.args[1], (ast.Attribute, ast.Name)):
+                    roots[n.args[0].id] = n.args[1].attr if isinstance(n.args[1], ast.Attribute) else n.args[1].id
+    out = {}
+    for attr, ss in slots.items():
+        if len(ss) != 1 or next(iter(ss)) not in roots:
+            continue
+        root = [k for lst in prog.classes.values() for k in lst if k.name == roots[next(iter(ss))]]
+        if len(root) != 1:
+            continue
+        pos = set()
+        for k in prog.subclasses(root[0]):
+            call = k.methods.get('__call__')
+            if call is None:
+                continue
+            ps_ = call.params[1:]
+            pos.add((ps_.index('T') if 'T' in ps_ else None, ps_.index('P') if 'P' in ps_ else None))
+        tpos = {t for t, _ in pos if t is not None}
+        ppos = {q for _, q in pos if q is not None}
+        if len(tpos) == 1 and len(ppos) <= 1:
+            out[attr] = (next(iter(tpos)), next(iter(ppos)) if ppos else None, root[0].name)
+    return out
+
+
+def _state_arguments(k, sigs, klass):
+    """the coefficient functions in one summand are evaluated at the state of that summand: the temperature is the point at which the
+    saturation pressures are evaluated, the pressure is the P that divides (bubble) / multiplies (dew) it.  None, or what is wrong."""
+    def parse(t):
+        try:
+            return ast.parse(t.replace('<[', '[').replace(']>', ']'), mode='eval').body
+        except SyntaxError:
+            return None
+    T_txt = P_txt = None
+    for a, e in k:
+        kl = klass(a)
+        if kl == 'Psat':
+            m = re.search(r"\[(\w+)\((.*?)\) for \1 in self\.Psats\]", a)
+            if m:
+                T_txt = m.group(2)
+        elif kl == 'P':
+            P_txt = a
+    for a, e in k:
+        kl = klass(a)
+        if kl not in sigs:
+            continue
+        node = parse(a)
+        if not isinstance(node, ast.Call):
+            continue
+        tpos, ppos, root = sigs[kl]
+        for pos, want, what in ((tpos, T_txt, 'temperature'), (ppos, P_txt, 'pressure')):
+            if pos is None or want is None:
+                continue
+            wn = parse(want)
+            if wn is None:
+                continue
+            if pos < len(node.args):
+                got = node.args[pos]
+            else:
+                continue          # left to its default / passed by keyword
+            if ast.unparse(got) != ast.unparse(wn):
+                return 'self.%s(...) is a %s: its %s argument (position %d) is %s, but the %s of this residual is %s' % (
+                    kl, root, what, pos + 1, ast.unparse(got), what, ast.unparse(wn))
+    return None
+
+
+def _inner_solve_state(prog, cname, rel, inner, mapping, k, klass):
+    """the inner composition solve of a residual (solve_y(summand, phi, T, P, y) / self._solve_x(summand, T, P, x)) evaluates the
+    coefficient of the phase being solved for: it must be handed the same temperature and pressure as the summand.  None / reason."""
+    if inner is None:
+        return None
+    func, forms = inner
+    callee = None
+    if isinstance(func, ast.Name):
+        callee = prog.module(rel).functions.get(func.id)
+        params = callee.params if callee else None
+    elif isinstance(func, ast.Attribute) and isinstance(func.value, ast.Name) and func.value.id == 'self':
+        callee = prog.cls(cname, rel).methods.get(func.attr)
+        params = callee.params[1:] if callee else None
+    if callee is None or len(params) < len(forms):
+        return None
+    T_txt = P_txt = None
+    for a, e in k:
+        kl = klass(a)
+        if kl == 'Psat':
+            m = re.search(r"\[(\w+)\((.*?)\) for \1 in self\.Psats\]", a)
+            if m:
+                T_txt = m.group(2)
+        elif kl == 'P':
+            P_txt = a
+    for name, want in (('T', T_txt), ('P', P_txt)):
+        if want is None or name not in params or params.index(name) >= len(forms):
+            continue
+        got = _subst(forms[params.index(name)], mapping).pretty()
+        if got.replace(' ', '') != want.replace(' ', ''):
+            return 'the inner solve %s(...) receives %s as its %s, but the summand is evaluated at %s = %s' % (src(func), got, name, name, want)
+    return None
+
+
 def raoult_shape(ctx, d5):
     """y_i phi_i P = x_i gamma_i pcf_i Psat_i.  Bubble: the summand handed to solve_y is y*phi = z*gamma*pcf*Psat/P;
     dew: the summand handed to _solve_x is x*gamma = z*phi*P/(pcf*Psat)."""
@@ -298,6 +415,10 @@ def raoult_shape(ctx, d5):
         if 'self.Psats' in a and not a.startswith('self.'):
             return 'Psat'
         return 'other:' + a
+    sigs = _coefficient_signatures(ctx.prog)
+    inner_calls = ctx.extra.setdefault('_C08_inner_calls', {})
+    if set(sigs) != {'gamma', 'pcf', 'phi'}:
+        raise AnalysisError('C08-D5: the call signatures of the coefficient objects (gamma, pcf, phi) could not be resolved: %s' % sorted(sigs))
     for cname, mname, rname, g, params, args, yv, f in res:
         cons = '%s.%s' % (cname, rname)
         full = _subst(yv, dict(zip(params, args)))
@@ -316,7 +437,11 @@ def raoult_shape(ctx, d5):
             else:
                 got[kl] += e
         want = WANT[cname]
-        if c == 1 and got == want and not other:
+        rel_ = BP if cname == 'BubblePoint' else DP
+        wrong_state = _state_arguments(k, sigs, klass) or _inner_solve_state(ctx.prog, cname, rel_, inner_calls.get('%s.%s' % (cname, rname)), dict(zip(params, args)), k, klass)
+        if wrong_state:
+            d5.fail(cons, 'coefficient-state', wrong_state, g, g.node)
+        elif c == 1 and got == want and not other:
             d5.ok(cons, 'summand = %s  (as called from %s)' % (full.pretty(), mname), g)
         else:
             diff = {x: (got[x], want[x]) for x in want if got[x] != want[x]}
@@ -360,6 +485,7 @@ def raoult_shape(ctx, d5):
                 v = e.stmt.value
                 if isinstance(v, ast.Call) and v.args and not (isinstance(v.func, ast.Name) and v.func.id in g.params):
                     yv = _summand_arg(gp, e)
+                    inner_calls['%s.%s' % (cname, rname)] = (v.func, [gp.lin.form(a) for a in v.args])
                 elif not isinstance(v, ast.Call):
                     comp.add(e.target[:-4])
         if yv is None or not comp:
@@ -385,7 +511,10 @@ def raoult_shape(ctx, d5):
             else:
                 got[kl] += e
         want = WANT[cname]
-        if c == 1 and got == want and not other:
+        wrong_state = _state_arguments(k, sigs, klass) or _inner_solve_state(prog, cname, rel, inner_calls.get('%s.%s' % (cname, rname)), mapping, k, klass)
+        if wrong_state:
+            d5.fail(cons, 'coefficient-state', wrong_state, g, g.node)
+        elif c == 1 and got == want and not other:
             d5.ok(cons, 'summand = %s  (as called from %s, composition buffer %s)' % (full.pretty(), mname, sorted(comp)), g)
         else:
             diff = {x: (got[x], want[x]) for x in want if got[x] != want[x]}
